@@ -114,6 +114,12 @@ def register(S):
                    # once the pool owns the connection, the socket that accept() put into self.clients is tracked there no longer
                    # (whatever socket object the authenticator handed back)
                    "accepted_socket_no_longer_tracked_by_the_base_server": (
-                       "implies(n_callees('_add_inactive_connection') == 1 and n_attr_reads('close') == 0, not haskey(self.clients, sock))", P17)},
-               raises={"BaseException": {"props": P17, "modifies": ["self.fd_to_conn", "self.clients"]}},
+                       "implies(n_callees('_add_inactive_connection') == 1 and n_attr_reads('close') == 0, not haskey(self.clients, sock))", P17),
+                   # ... and a client that could not be taken over (authentication refused, any failure while building the connection)
+                   # leaves no entry behind either
+                   "no_entry_is_kept_for_a_rejected_client": ("not haskey(self.clients, sock)", P17)},
+               # a client that fails (authentication refused, a reset before getpeername, anything) must not take the accept loop
+               # down: no Exception escapes (C16) - other than one raised by closing the failed client's socket itself
+               raises={"BaseException": {"props": P17 + ["C16"], "modifies": ["self.fd_to_conn", "self.clients"],
+                                         "state": ["implies(exc_is(exc, 'Exception'), raised_by_attr('close'))"]}},
                modifies=["self.fd_to_conn", "self.clients"])
